@@ -64,6 +64,25 @@ def run(ctx):
         for m in rep["mismatches"]:
             beh = m.pop("behaviour", None)
             ctx.violation(hotcommon.classify_c05(m) or "C05/W4d:" + m.get("what", "?"), m.get("what"), {"mismatch": m, "behaviour": beh})
+    # random larger dependency DAGs (10-12 compounds over 6 leaves), several per run
+    for k in range(6 if thorough else 2):
+        mod, clean = worlds.random_world(ctx.seed * 100 + k, 10 + (k % 3))
+        try:
+            r, behs = worlds.generate("WR", 9, simulate=(600 if thorough else 250), seed=ctx.seed + k, module=mod, keep="KeepReloaded", limit=4000)
+        finally:
+            clean()
+        ctx.add_tlc(f"Gen WR#{k}: random DAG of {10 + (k % 3)} compounds, simulated histories of length 9 in which a reload happened", r)
+        if behs:
+            rep = worlds.replay(behs)
+            for b in behs:
+                ctx.case(b)
+            ctx.cov["traces_validated_against_impl"] += 2 * len(behs)
+            ctx.cov.setdefault("random_dags", []).append(dict(index=k, behaviours=len(behs), mismatches=len(rep["mismatches"])))
+            for m in rep["mismatches"]:
+                beh = m.pop("behaviour", None)
+                ctx.violation(hotcommon.classify_c05(m) or f"C05/WR:{m.get('what', '?')}", f"{m.get('what')} (random DAG, front {m.get('front')}, step {m.get('step')})",
+                              {"mismatch": m, "behaviour": beh})
+    hotcommon.fs_replay(ctx, thorough)
     worlds.binding_demo(ctx, "W3", 2)
     ctx.cov["rule"] = ("histories generated by TLC from AssetCache.tla over worlds W3 (diamond), W4 (indirection/rewiring), W5 (directories), "
                        "W8 (enhance mode), W7c (failing and recovering reloads); distinct by content; non-trivial = some reload happened or some call failed")
